@@ -370,6 +370,12 @@ int main(int argc, char **argv) {
         A.t0 = wall_now();
         for (uint64_t i = start; i < count; i++) {
             if ((i & 15) == 0 && wall_now() - A.t0 > seconds) break;
+            if (sim::os_threads_created() > 3000000) { // ASan refuses to register more than 2^22 threads per process: continue in a new one
+                print_summary();
+                printf("RESTART %llu\n", (unsigned long long)i);
+                fflush(stdout);
+                return 0;
+            }
             uint64_t idx = i * (uint64_t)nw + (uint64_t)g_w;
             uint64_t s = sim::seed_mix(base, idx);
             g_cur_seed = s;
